@@ -14,3 +14,9 @@ for p in $red; do
   git reset -q -- harness/cmd/$l lean/ApiFu/$p checks/$p.json evidence/$p.json corpus/$p design-notes/$p.md known_findings.d/$p.json 2>/dev/null
 done
 git commit -qm "$1" && echo committed
+# post-commit: build what was committed (not the working tree) the way MANIFEST.setup_cmd does
+v=/tmp/vcommit-$$; rm -rf $v; mkdir -p $v
+git archive HEAD | tar -x -C $v
+mkdir -p $v/lean && cp -a lean/.lake $v/lean/ 2>/dev/null
+if (cd $v && bash ./setup.sh >$v/setup.log 2>&1); then echo "committed tree: setup ok"; else echo "committed tree: SETUP FAILS"; grep -n "error" $v/setup.log | head; tail -5 $v/setup.log; fi
+rm -rf $v
